@@ -159,10 +159,37 @@ def wl_chosen_sp(ctx, config):
                     ctx.ev("adaptor_recover", "sp+n", True, t)
                     ctx.check(rec.ret == 0, "adaptor_recover:sp+n:accepted", t.hex(), config)
 
+def infinity_cases(rng):
+    """162-byte strings crafted so that an intermediate point of adaptor_verify is the point at infinity:
+    R1 = s*G - e*R' (R' = t*G, s = t*e), R2 = s*Y - e*R (R = t*Y, s = t*e), both, and the derived point
+    s'^-1 (m*G + R.x*X) (X = -(m / R.x) * G).  Yields (class, a162, X, msg32, Y)."""
+    d = rng.randrange(1, n); y = rng.randrange(1, n); X = mulG(d); Y = mulG(y)
+    t = rng.choice((1, 1, 2, 3, n - 1, rng.randrange(1, n))); e = rng.randrange(1, n); sp = rng.randrange(1, n); msg = b32(rng.randrange(0, 2**256))
+    other = mulG(rng.randrange(1, n))
+    yield "R2_infinity", ser33(mul(t, Y)) + ser33(other) + b32(sp) + b32(e) + b32(t * e % n), X, msg, Y
+    yield "R1_infinity", ser33(other) + ser33(mulG(t)) + b32(sp) + b32(e) + b32(t * e % n), X, msg, Y
+    yield "R1_R2_infinity", ser33(mul(t, Y)) + ser33(mulG(t)) + b32(sp) + b32(e) + b32(t * e % n), X, msg, Y
+    yield "R2_infinity:e_zero", ser33(mul(t, Y)) + ser33(other) + b32(sp) + b32(0) + b32(0), X, msg, Y
+    # a consistent DLEQ part with a public key that cancels the derived point
+    k = rng.randrange(1, n); a, m2 = adaptor.make(d, Y, k, rng.randrange(1, n), sp)
+    sigr = I(a[1:33]) % n
+    if sigr:
+        mm = rng.randrange(1, n); Xc = mulG((-mm * pow(sigr, -1, n)) % n)
+        yield "derived_point_infinity", a, Xc, b32(mm), Y
+
+def wl_infinity(ctx, config):
+    rng = ctx.rng
+    for it in range(ctx.n(40, 1500)):
+        for cls, a, X, msg, Y in infinity_cases(rng):
+            Xo = pkobj(ctx, X, config); Yo = pkobj(ctx, Y, config)
+            if Xo is None or Yo is None: continue
+            vcase(ctx, config, a, X, Xo, msg, Y, Yo, "crafted:" + cls)
+
 def run(ctx):
     from vlib import smallgroup
     smallgroup.run(ctx, 'adaptor', {'adaptor_sp_reenc': 'accepted', 'adaptor_dleq_s_reenc': 'accepted', 'adaptor_decrypt_sp_reenc': 'accepted'})
     for config in ctx.configs:
         wl_pipeline(ctx, config)
         wl_chosen_sp(ctx, config)
+        wl_infinity(ctx, config)
         wl_fail_paths(ctx, config)
